@@ -306,7 +306,7 @@ Proof.
   - cbn. split; [apply insert_qinv; exact H|]. split; [apply grows_insert|reflexivity].
   - cbn. split; [apply insert_qinv; exact H|]. split; [apply grows_insert|reflexivity].
   - destruct (zget (s_life s) u) as [[]|]; cbn; (split; [exact H|]; split; [apply grows_refl|reflexivity]).
-  - destruct (zget (s_life s) u); cbn; (split; [exact H|]; split; [apply grows_refl|reflexivity]).
+  - destruct (zget (s_life s) u) as [[| | |]|]; cbn; (split; [exact H|]; split; [apply grows_refl|reflexivity]).
   - destruct (zget (s_cls s) u); cbn; (split; [exact H|]; split; [apply grows_refl|reflexivity]).
 Qed.
 
@@ -363,6 +363,7 @@ Qed.
 (* the fate of the task an iteration takes, as a function of the state at that moment *)
 Definition fate_of (s : sim) (t : task) : fate :=
   if lstate_eqb (life_of s (t_src t)) LDead then DroppedDead
+  else if negb (on_field s (t_src t)) then DroppedOffField
   else if has_flag s (t_src t) (t_flags t) then DroppedFlag
   else match t_body t with
        | BAction u => if lstate_eqb (life_of s u) LAlive then Executed else ActionNotAlive
@@ -381,21 +382,29 @@ Proof.
 Qed.
 
 Theorem iter_spec : forall s s' stopped, J s -> iter s = Some (s', stopped) ->
-  exists t q', pop_min (s_q s) = Some (t, q') /\
+  (* a side has been wiped out: the battle ends, nothing is taken *)
+  (exists r, exit_reason s = Some r /\ q_pending (s_q s) <> [] /\
+             s' = emit s [TTermination r] /\ stopped = true) \/
+  (exit_reason s = None /\
+   exists t q', pop_min (s_q s) = Some (t, q') /\
     (* it is the least pending task *)
     In t (q_pending (s_q s)) /\ (forall t', In t' (q_pending (s_q s)) -> less t' t = false) /\
     (* it is recorded once, with the fate the state at that moment dictates *)
     s_log s' = s_log s ++ [mkE t (fate_of s t)] /\
     (* a dropped task: nothing at all happens besides leaving the queue *)
-    ((fate_of s t = DroppedDead \/ fate_of s t = DroppedFlag) ->
+    ((fate_of s t = DroppedDead \/ fate_of s t = DroppedOffField \/ fate_of s t = DroppedFlag) ->
        s' = record (with_q s q') (mkE t (fate_of s t)) /\ stopped = false) /\
     (* an inserted action of a unit that is not alive does nothing either *)
     (fate_of s t = ActionNotAlive ->
        s_q s' = q' /\ s_life s' = s_life s /\ s_flags s' = s_flags s /\ s_acts s' = s_acts s) /\
-    J s'.
+    J s').
 Proof.
   intros s s' stopped HJ H. unfold iter in H.
   destruct (pop_min (s_q s)) as [[t q']|] eqn:E; [|discriminate].
+  destruct (exit_reason s) as [r|] eqn:Eexit.
+  { left. exists r. inversion H; subst. repeat split; try reflexivity.
+    intros Hp. apply pop_min_none in Hp. congruence. }
+  right. split; [reflexivity|].
   destruct HJ as [Hq [Hnd Hlog]].
   destruct (pop_min_spec _ _ _ Hq E) as [Hin [Hleast [_ [HP [Hni [Hc Hq']]]]]].
   exists t, q'. split; [reflexivity|]. split; [exact Hin|]. split; [exact Hleast|].
@@ -421,7 +430,11 @@ Proof.
         destruct (Hp1 t1 Ht1) as [Hold|Hge]; [|lia]. apply Hni. unfold ids. rewrite <- He. now apply in_map. }
   unfold fate_of. change (life_of (with_q s q')) with (life_of s) in H.
   change (has_flag (with_q s q')) with (has_flag s) in H.
+  change (on_field (with_q s q')) with (on_field s) in H.
   destruct (lstate_eqb (life_of s (t_src t)) LDead) eqn:Ed.
+  { inversion H; subst s' stopped; clear H. split; [reflexivity|]. split; [auto|]. split; [discriminate|].
+    apply Jrec; [exact Hq'|apply grows_refl|reflexivity]. }
+  destruct (negb (on_field s (t_src t))) eqn:Eo.
   { inversion H; subst s' stopped; clear H. split; [reflexivity|]. split; [auto|]. split; [discriminate|].
     apply Jrec; [exact Hq'|apply grows_refl|reflexivity]. }
   destruct (has_flag s (t_src t) (t_flags t)) eqn:Ef.
@@ -447,10 +460,10 @@ Proof.
     inversion Ex; subst s1. cbn. auto. }
   destruct (exit_reason (death_check (record s1 (mkE t f)))) as [r|];
     inversion H; subst s' stopped; clear H.
-  - split; [exact Hlogdc|]. split; [intros [Hx|Hx]; subst f; destruct (t_body t) as [|u]; try discriminate;
+  - split; [exact Hlogdc|]. split; [intros [Hx|[Hx|Hx]]; subst f; destruct (t_body t) as [|u]; try discriminate;
       destruct (lstate_eqb (life_of s u) LAlive); discriminate|].
     split; [exact Hna|]. exact Jdc.
-  - split; [exact Hlogdc|]. split; [intros [Hx|Hx]; subst f; destruct (t_body t) as [|u]; try discriminate;
+  - split; [exact Hlogdc|]. split; [intros [Hx|[Hx|Hx]]; subst f; destruct (t_body t) as [|u]; try discriminate;
       destruct (lstate_eqb (life_of s u) LAlive); discriminate|].
     split; [exact Hna|]. exact Jdc.
 Qed.
@@ -459,19 +472,35 @@ Lemma iter_none : forall s, iter s = None <-> q_pending (s_q s) = [].
 Proof.
   intros s. rewrite <- pop_min_none. unfold iter. destruct (pop_min (s_q s)) as [[t q']|].
   - split; [|discriminate]. intros H.
+    destruct (exit_reason s); [discriminate|].
     destruct (lstate_eqb (life_of (with_q s q') (t_src t)) LDead); [discriminate|].
+    destruct (negb (on_field (with_q s q') (t_src t))); [discriminate|].
     destruct (has_flag (with_q s q') (t_src t) (t_flags t)); [discriminate|].
     destruct (execute (with_q s q') t) as [s1 f].
     destruct (exit_reason (death_check (record s1 (mkE t f)))); discriminate.
   - tauto.
 Qed.
 
+Lemma iter_J : forall s s' stopped, J s -> iter s = Some (s', stopped) -> J s'.
+Proof.
+  intros s s' stopped HJ H. destruct (iter_spec _ _ _ HJ H) as [[r [_ [_ [-> _]]]]|[_ [t [q' [_ [_ [_ [_ [_ [_ HJ1]]]]]]]]]].
+  - exact HJ.
+  - exact HJ1.
+Qed.
+
+Lemma iter_log : forall s s' stopped, J s -> iter s = Some (s', stopped) -> exists more, s_log s' = s_log s ++ more.
+Proof.
+  intros s s' stopped HJ H. destruct (iter_spec _ _ _ HJ H) as [[r [_ [_ [-> _]]]]|[_ [t [q' [_ [_ [_ [Hl _]]]]]]]].
+  - exists []. cbn. now rewrite app_nil_r.
+  - eauto.
+Qed.
+
 Lemma drain_J : forall fuel s s' stopped, J s -> drain fuel s = Some (s', stopped) -> J s'.
 Proof.
   induction fuel as [|n IH]; intros s s' stopped HJ H; cbn [drain] in H; [discriminate|].
   destruct (iter s) as [[s1 [|]]|] eqn:E.
-  - inversion H; subst. destruct (iter_spec _ _ _ HJ E) as [t [q' [_ [_ [_ [_ [_ [_ HJ1]]]]]]]]. exact HJ1.
-  - destruct (iter_spec _ _ _ HJ E) as [t [q' [_ [_ [_ [_ [_ [_ HJ1]]]]]]]]. eapply IH; eauto.
+  - inversion H; subst. eapply iter_J; eauto.
+  - eapply IH; [|exact H]. eapply iter_J; eauto.
   - inversion H; subst. exact HJ.
 Qed.
 
@@ -491,8 +520,8 @@ Lemma drain_log_prefix : forall fuel s s' stopped, J s -> drain fuel s = Some (s
 Proof.
   induction fuel as [|n IH]; intros s s' stopped HJ H; cbn [drain] in H; [discriminate|].
   destruct (iter s) as [[s1 [|]]|] eqn:E.
-  - inversion H; subst. destruct (iter_spec _ _ _ HJ E) as [t [q' [_ [_ [_ [Hl _]]]]]]. eauto.
-  - destruct (iter_spec _ _ _ HJ E) as [t [q' [_ [_ [_ [Hl [_ [_ HJ1]]]]]]]].
+  - inversion H; subst. eapply iter_log; eauto.
+  - destruct (iter_log _ _ _ HJ E) as [m1 Hl]. pose proof (iter_J _ _ _ HJ E) as HJ1.
     destruct (IH _ _ _ HJ1 H) as [more Hm]. rewrite Hm, Hl, <- app_assoc. eauto.
   - inversion H; subst. exists []. now rewrite app_nil_r.
 Qed.
@@ -500,12 +529,13 @@ Qed.
 Lemma top_run_J : forall fuel ops s s', J s -> top_run fuel s ops = Some s' -> J s'.
 Proof.
   induction ops as [|o r IH]; intros s s' HJ H; cbn [top_run] in H; [inversion H; subst; exact HJ|].
-  destruct o as [e|]; cbn [top_step] in H.
+  destruct o as [e| |u]; cbn [top_step] in H.
   - eapply IH; [|exact H]. now apply J_apply_eff.
   - destruct (drain fuel s) as [[s1 stopped]|] eqn:E; [|discriminate].
     pose proof (drain_J _ _ _ _ HJ E) as HJ1.
     assert (HJ2 : J (emit s1 [TDrained stopped (q_is_empty (s_q s1))])) by exact HJ1.
     destruct stopped; [inversion H; subst; exact HJ2|]. eapply IH; eauto.
+  - eapply IH; [|exact H]. exact HJ.
 Qed.
 
 (* ---- the Execute callback of an insert runs at most once (what the harness observes) ---- *)
@@ -523,7 +553,7 @@ Lemma apply_eff_trace : forall s e, s_trace (apply_eff s e) = s_trace s.
 Proof.
   intros s e. destruct e as [p src f sc|u|u l|u|u f on]; cbn [apply_eff]; try reflexivity.
   - destruct (zget (s_life s) u) as [[]|]; reflexivity.
-  - destruct (zget (s_life s) u); reflexivity.
+  - destruct (zget (s_life s) u) as [[| | |]|]; reflexivity.
   - destruct (zget (s_cls s) u); reflexivity.
 Qed.
 Lemma run_script_trace : forall sc s, s_trace (run_script s sc) = s_trace s.
@@ -557,7 +587,7 @@ Lemma apply_eff_log : forall s e, s_log (apply_eff s e) = s_log s.
 Proof.
   intros s e. destruct e as [p src f sc|u|u l|u|u f on]; cbn [apply_eff]; try reflexivity.
   - destruct (zget (s_life s) u) as [[]|]; reflexivity.
-  - destruct (zget (s_life s) u); reflexivity.
+  - destruct (zget (s_life s) u) as [[| | |]|]; reflexivity.
   - destruct (zget (s_cls s) u); reflexivity.
 Qed.
 Lemma run_script_log : forall sc s, s_log (run_script s sc) = s_log s.
@@ -578,7 +608,13 @@ Lemma iter_K : forall s s' stopped, K s -> iter s = Some (s', stopped) -> K s'.
 Proof.
   intros s s' stopped HK H. unfold iter in H.
   destruct (pop_min (s_q s)) as [[t q']|]; [|discriminate].
+  destruct (exit_reason s).
+  { inversion H; subst. unfold K in *. cbn [emit s_trace s_log]. rewrite texecs_app. cbn.
+    rewrite app_nil_r. exact HK. }
   destruct (lstate_eqb (life_of (with_q s q') (t_src t)) LDead).
+  { inversion H; subst. unfold K in *. cbn [record with_q s_trace s_log]. rewrite filter_app, map_app.
+    cbn. rewrite app_nil_r. exact HK. }
+  destruct (negb (on_field (with_q s q') (t_src t))).
   { inversion H; subst. unfold K in *. cbn [record with_q s_trace s_log]. rewrite filter_app, map_app.
     cbn. rewrite app_nil_r. exact HK. }
   destruct (has_flag (with_q s q') (t_src t) (t_flags t)).
@@ -610,7 +646,7 @@ Qed.
 Lemma top_run_K : forall fuel ops s s', K s -> top_run fuel s ops = Some s' -> K s'.
 Proof.
   induction ops as [|o r IH]; intros s s' HK H; cbn [top_run] in H; [inversion H; subst; exact HK|].
-  destruct o as [e|]; cbn [top_step] in H.
+  destruct o as [e| |u]; cbn [top_step] in H; [| |eapply IH; [|exact H]; exact HK].
   - eapply IH; [|exact H]. unfold K in *. now rewrite apply_eff_trace, apply_eff_log.
   - destruct (drain fuel s) as [[s1 stopped]|] eqn:E; [|discriminate].
     pose proof (drain_K _ _ _ _ HK E) as HK1.
@@ -645,12 +681,14 @@ Proof. intros a b. destruct a, b; cbn; split; intros; try discriminate; reflexiv
 
 Theorem dropped_iff : forall s t,
   (fate_of s t = DroppedDead <-> life_of s (t_src t) = LDead) /\
-  (fate_of s t = DroppedFlag <-> life_of s (t_src t) <> LDead /\ has_flag s (t_src t) (t_flags t) = true) /\
+  (fate_of s t = DroppedOffField <-> life_of s (t_src t) <> LDead /\ on_field s (t_src t) = false) /\
+  (fate_of s t = DroppedFlag <->
+     life_of s (t_src t) <> LDead /\ on_field s (t_src t) = true /\ has_flag s (t_src t) (t_flags t) = true) /\
   (fate_of s t = ActionNotAlive <->
-     life_of s (t_src t) <> LDead /\ has_flag s (t_src t) (t_flags t) = false /\
+     life_of s (t_src t) <> LDead /\ on_field s (t_src t) = true /\ has_flag s (t_src t) (t_flags t) = false /\
      exists u, t_body t = BAction u /\ life_of s u <> LAlive) /\
   (fate_of s t = Executed <->
-     life_of s (t_src t) <> LDead /\ has_flag s (t_src t) (t_flags t) = false /\
+     life_of s (t_src t) <> LDead /\ on_field s (t_src t) = true /\ has_flag s (t_src t) (t_flags t) = false /\
      match t_body t with BAction u => life_of s u = LAlive | BAbility _ => True end).
 Proof.
   intros s t. unfold fate_of.
@@ -658,6 +696,7 @@ Proof.
   { intros a b H He. apply lstate_eqb_eq in He. congruence. }
   destruct (lstate_eqb (life_of s (t_src t)) LDead) eqn:Ed;
     [apply lstate_eqb_eq in Ed|apply Hd in Ed];
+  (destruct (on_field s (t_src t)) eqn:Eo; cbn [negb]);
   (destruct (has_flag s (t_src t) (t_flags t)) eqn:Ef);
   (destruct (t_body t) as [sc|u]; [|destruct (lstate_eqb (life_of s u) LAlive) eqn:Ea;
                                      [apply lstate_eqb_eq in Ea|apply Hd in Ea]]);
@@ -665,6 +704,15 @@ Proof.
   try (match goal with H : exists _, _ |- _ => destruct H as [u' [He Hn]] end;
        try discriminate; inversion He; subst; contradiction);
   eauto.
+Qed.
+
+(* the source is off the field exactly when it is in neither living side list *)
+Lemma on_field_iff : forall s u, on_field s u = true <-> In u (s_chars s) \/ In u (s_enemies s).
+Proof.
+  intros s u. unfold on_field, zmem. rewrite orb_true_iff, !existsb_exists.
+  split; intros [H|H]; [left|right|left|right];
+    try (destruct H as [x [Hx He]]; apply Z.eqb_eq in He; subst; exact Hx);
+    exists u; (split; [exact H|apply Z.eqb_refl]).
 Qed.
 
 (* ------------------------------------------------------------------------------------ *)
@@ -691,27 +739,34 @@ Definition C10_statement : Prop :=
   (forall ops, NoDup (ids (snd (arun q_empty ops)))) /\
   (* the drain, from any state satisfying the invariant: the task taken is the least pending
      one, it is recorded once with the fate its source's state dictates, and a dropped task
-     changes nothing *)
+     changes nothing; when a side has been wiped out nothing is taken and the battle ends *)
   (forall s s' stopped, J s -> iter s = Some (s', stopped) ->
-     exists t q', pop_min (s_q s) = Some (t, q') /\
+     (exists r, exit_reason s = Some r /\ q_pending (s_q s) <> [] /\
+                s' = emit s [TTermination r] /\ stopped = true) \/
+     (exit_reason s = None /\
+      exists t q', pop_min (s_q s) = Some (t, q') /\
        In t (q_pending (s_q s)) /\ (forall t', In t' (q_pending (s_q s)) -> less t' t = false) /\
        s_log s' = s_log s ++ [mkE t (fate_of s t)] /\
-       ((fate_of s t = DroppedDead \/ fate_of s t = DroppedFlag) ->
+       ((fate_of s t = DroppedDead \/ fate_of s t = DroppedOffField \/ fate_of s t = DroppedFlag) ->
           s' = record (with_q s q') (mkE t (fate_of s t)) /\ stopped = false) /\
        (fate_of s t = ActionNotAlive ->
           s_q s' = q' /\ s_life s' = s_life s /\ s_flags s' = s_flags s /\ s_acts s' = s_acts s) /\
-       J s') /\
-  (* dropped exactly when the source is dead or carries an abort flag; an inserted action
-     additionally does nothing unless its unit is alive *)
+       J s')) /\
+  (* dropped exactly when the source is dead, or has left the field (is in neither living side
+     list), or carries an abort flag; an inserted action additionally does nothing unless its
+     unit is alive *)
   (forall s t,
      (fate_of s t = DroppedDead <-> life_of s (t_src t) = LDead) /\
-     (fate_of s t = DroppedFlag <-> life_of s (t_src t) <> LDead /\ has_flag s (t_src t) (t_flags t) = true) /\
+     (fate_of s t = DroppedOffField <-> life_of s (t_src t) <> LDead /\ on_field s (t_src t) = false) /\
+     (fate_of s t = DroppedFlag <->
+        life_of s (t_src t) <> LDead /\ on_field s (t_src t) = true /\ has_flag s (t_src t) (t_flags t) = true) /\
      (fate_of s t = ActionNotAlive <->
-        life_of s (t_src t) <> LDead /\ has_flag s (t_src t) (t_flags t) = false /\
+        life_of s (t_src t) <> LDead /\ on_field s (t_src t) = true /\ has_flag s (t_src t) (t_flags t) = false /\
         exists u, t_body t = BAction u /\ life_of s u <> LAlive) /\
      (fate_of s t = Executed <->
-        life_of s (t_src t) <> LDead /\ has_flag s (t_src t) (t_flags t) = false /\
+        life_of s (t_src t) <> LDead /\ on_field s (t_src t) = true /\ has_flag s (t_src t) (t_flags t) = false /\
         match t_body t with BAction u => life_of s u = LAlive | BAbility _ => True end)) /\
+  (forall s u, on_field s u = true <-> In u (s_chars s) \/ In u (s_enemies s)) /\
   (* whole runs of the harness machine (effects, drains, inserts from inside executing inserts):
      the invariant holds, every task is taken at most once, every Execute callback runs at
      most once; a drain that is not stopped by an exit condition empties the queue *)
@@ -731,7 +786,7 @@ Proof.
     split; [exact Hin|]. split; [intros t Ht; apply nless_meaning; now apply Hleast|].
     split; [exact Hstrict|exact HP]. }
   split; [intros ops; apply arun_popped, qinv_empty|].
-  split; [exact iter_spec|]. split; [exact dropped_iff|].
+  split; [exact iter_spec|]. split; [exact dropped_iff|]. split; [exact on_field_iff|].
   split; [exact taken_at_most_once|exact drain_empties].
 Qed.
 
@@ -739,16 +794,17 @@ Qed.
    insert, a dead source and a flagged source *)
 Definition demo_units : list (Z * class) := [(1, CChar); (3, CEnemy); (4, CEnemy)].
 Definition demo_ops : list top :=
-  [ TEff (EAbility 115 1 [] [EAbility 75 1 [] []; EKill 4 false]);   (* id 0; queues id 4 and kills unit 4 *)
+  [ TEff (EAbility 115 1 [] [EAbility 75 1 [] []; EKill 4 false]);   (* id 0; queues id 5 and kills unit 4 *)
     TEff (EAbility 75 3 [100] []);                                     (* id 1 *)
     TEff (EAbility 75 4 [] []);                                        (* id 2 *)
     TEff (EAction 4);                                                  (* id 3 *)
     TEff (EFlag 3 100 true);
+    TEff (EAbility 45 9 [] []);                                        (* id 4; 9 never was a unit *)
     TDrain ].
 
 Lemma demo_runs : exists s,
   top_run 50 (sim_init demo_units []) demo_ops = Some s /\
   map (fun e => (t_id (e_task e), e_fate e)) (s_log s) =
-    [(1, DroppedFlag); (2, Executed); (0, Executed); (4, Executed); (3, DroppedDead)] /\
-  texecs (s_trace s) = [2; 0; 4].
+    [(4, DroppedOffField); (1, DroppedFlag); (2, Executed); (0, Executed); (5, Executed); (3, DroppedDead)] /\
+  texecs (s_trace s) = [2; 0; 5].
 Proof. eexists. vm_compute. repeat split; reflexivity. Qed.
